@@ -433,12 +433,12 @@ def run(ctx):
         d7 = [f for f in rep.failures if sig_d7(f)]
         corpus_known["oneshot_resent_by_overlapping_poll"] = bool(d7)
     r = ctx.sub_rng("gen")
-    cases = [gen_case(r, long=(k % 25 == 0)) for k in range(ctx.n(400, 12000))]
+    cases = [gen_case(r, long=(k % 25 == 0)) for k in range(ctx.n(400, 9000))]
     broken = explore(ctx, rep, cases, "main")
     unexplained = [f for f in rep.failures if not sig_d7(f)]
     if (broken or any(not o["ok"] for o in rep.obligations)) and not unexplained:
         r2 = ctx.sub_rng("search")
-        explore(ctx, rep, [gen_case(r2) for _ in range(ctx.n(1500, 12000))], "search")
+        explore(ctx, rep, [gen_case(r2) for _ in range(ctx.n(1500, 5000))], "search")
     rep.extra["known_finding_D7_hits_this_run"] = sum(1 for f in rep.failures if sig_d7(f))
     return rep.finish(SIGNATURES, corpus_known)
 
